@@ -117,9 +117,22 @@ class Run:
             cmd += ["--cases", cases]
         try:
             p = subprocess.run(cmd, stdout=subprocess.PIPE, stderr=subprocess.STDOUT, text=True, timeout=timeout,
-                               env=dict(os.environ, **dict(extra_env or {}, **({"GOCOVERDIR": os.environ["VERIF_COVER"]} if os.environ.get("VERIF_COVER") else {}))))
+                               env=dict(os.environ, VERIF_PROP=self.prop, **dict(extra_env or {}, **({"GOCOVERDIR": os.environ["VERIF_COVER"]} if os.environ.get("VERIF_COVER") else {}))))
         except subprocess.TimeoutExpired:
             raise MachineryError("driver %s/%s timed out" % (family, mode))
+        if p.returncode == 3 and "HANG-ABORT" in p.stdout:
+            # the watchdog of the harness recorded a `hang` event (a call of the real code never returned) and ended the
+            # driver; the partial trace is validated as usual and the trace specification rejects that event
+            last = ""
+            with open(out) as fh:
+                for ln in fh:
+                    if ln.strip():
+                        last = ln
+            if '"ev":"hang"' not in last:
+                raise MachineryError("driver %s/%s aborted after a hang but recorded no hang event" % (family, mode))
+            log("driver %s/%s ended by its hang watchdog: %s" % (family, mode, p.stdout.strip().splitlines()[-1][:200]))
+            self.notes.append("driver %s/%s was ended by the hang watchdog; the rest of its inputs was not examined in this run" % (family, mode))
+            return out
         if p.returncode != 0:
             raise MachineryError("driver %s/%s failed rc=%d:\n%s" % (family, mode, p.returncode, p.stdout[-3000:]))
         return out
@@ -177,7 +190,9 @@ class Run:
             fl = []
             for m in re.finditer(r'<<\s*"VFAIL",\s*(\d+),\s*<<(.*?)>>\s*>>', out, re.S):
                 clauses = re.findall(r'"([^"]+)"', m.group(2))
-                if any(cl.startswith(prefix) for cl in clauses):
+                if "unknown-event" in clauses:
+                    raise MachineryError("trace specification %s does not know the event at line %s of %s" % (spec, m.group(1), path))
+                if any(cl.startswith(prefix) or cl.endswith(".hang") for cl in clauses):
                     fl.append((int(m.group(1)), clauses))
             evs = []
             if fl:
@@ -198,7 +213,7 @@ class Run:
             self.states += dist
             self.transitions += gen
             for ev, clauses in evs:
-                mine = [c for c in clauses if c.startswith(prefix)]
+                mine = [c for c in clauses if c.startswith(prefix) or c.endswith(".hang")]
                 nf += 1
                 if len(self.fails) < 5000:
                     self.fails.append((family, ev, mine))
